@@ -30,8 +30,9 @@ for src, lines in sorted(files.items()):
     fn, stats = None, collections.OrderedDict()
     for n in sorted(lines):
         c, t = lines[n]
-        m = re.match(r"^([A-Za-z_]\w*)\s*\(", t)
-        if m and not t.startswith(("if", "for", "while", "switch", "return")):
+        m = re.match(r"^(?:[A-Za-z_][\w\s\*]*?[\s\*])?([A-Za-z_]\w*)\s*\(", t)
+        if m and not t.rstrip().endswith(";") and m.group(1) not in ("if", "for", "while", "switch", "return", "sizeof", "defined", "__hwloc_attribute_unused") \
+           and not t.startswith(("typedef", "#", "struct ", "union ", "enum ")):
             fn = m.group(1)
             stats[fn] = [0, 0, []]
         if fn and c is not None:
